@@ -339,6 +339,7 @@ def check(run):
     mc_and_replay(run, 'base7', base, 4 if quick else 6, 'none')
     # BOM handling: text level has no BOM stripping (encoding None); utf-8 strips the BOM character, latin-1 the three bytes
     mc_and_replay(run, 'bom-utf8', [97, 65279, 10, 44], 3 if quick else 5, 'utf-8', policies=['quoted', 'quoted_rfc'], cmts=[0])
+    mc_and_replay(run, 'bom-and-comment', [97, 65279, 35, 10], 4 if quick else 5, 'utf-8', policies=['quoted', 'quoted_rfc'], cmts=[0, 35])
     mc_and_replay(run, 'bom-latin1', [97, 239, 187, 191, 10], 4 if quick else 5, 'latin-1', policies=['quoted'], cmts=[0])
     # multi-byte characters split across raw reads
     mc_and_replay(run, 'multibyte', [97, 233, 8364, 128512, 10, 13], 3 if quick else 4, 'utf-8', policies=['quoted'], cmts=[0])
